@@ -55,13 +55,14 @@ def bodyIsQuery : Body → Bool
 /-- the guard of the CREATE TABLE branch of `_generate_as_hive`: `anyQuery` = `isinstance(…, exp.Query)` (the source),
     `selectOnly` = `isinstance(…, exp.Select)` (a variant kept for the witness) -/
 inductive BodyGuard where
-  | anyQuery | selectOnly
+  | anyQuery | selectOnly | unwrappedOnly   -- `unwrappedOnly` = `isinstance(…, exp.UNWRAPPED_QUERIES)`: Select and set operations, not Subquery
 deriving DecidableEq, Repr
 
 def bodyPasses (g : BodyGuard) (b : Body) : Bool :=
   match g with
   | .anyQuery => bodyIsQuery b
   | .selectOnly => b = .select || b = .withq || b = .subquery   -- `WITH … SELECT` / `SELECT … FROM (…)` parse to a Select
+  | .unwrappedOnly => b = .select || b = .withq || b = .subquery || b = .setop   -- a parenthesised query is an exp.Subquery
 
 /-- `_generate_as_hive` -/
 def genHiveWith (g : BodyGuard) (s : Shape) : Bool :=
